@@ -524,6 +524,77 @@ func hugeArrays(c *vm.Ctx) {
 	}
 }
 
+// bigPayloads: strings and byte arrays of 64 KiB .. 2 MiB, which a peer may send inside the frame limit, whole and
+// with only a part of the declared bytes present. Readers that grow their buffer as data arrives have one branch per
+// growth step; the short hostile inputs above never leave the first.
+func bigPayloads(c *vm.Ctx) {
+	sizes := []int{65536, 65537, 131072, 131073, 196608, 196609, 262145, 500000, 1<<20 + 1, 1<<21 - 10}
+	type dec struct {
+		name string
+		run  func(in []byte) error
+	}
+	decs := []dec{
+		{"String", func(in []byte) error { var v pk.String; _, err := v.ReadFrom(rd(in)); return err }},
+		{"Identifier", func(in []byte) error { var v pk.Identifier; _, err := v.ReadFrom(rd(in)); return err }},
+		{"ByteArray", func(in []byte) error { var v pk.ByteArray; _, err := v.ReadFrom(rd(in)); return err }},
+		{"ByteArray(used destination)", func(in []byte) error {
+			v := pk.ByteArray(make([]byte, 10, 40))
+			_, err := v.ReadFrom(rd(in))
+			return err
+		}},
+		{"Packet.Scan(VarInt,ByteArray,Boolean)", func(in []byte) error {
+			var a pk.VarInt
+			var b pk.ByteArray
+			var f pk.Boolean
+			return pk.Packet{ID: 1, Data: append([]byte{5}, in...)}.Scan(&a, &b, &f)
+		}},
+		{"Ary[VarInt]ofByteArray", func(in []byte) error {
+			var v []pk.ByteArray
+			_, err := pk.Array(&v).ReadFrom(rd(append([]byte{1}, in...)))
+			return err
+		}},
+		{"chat.JsonMessage", func(in []byte) error { var m chat.JsonMessage; _, err := m.ReadFrom(rd(in)); return err }},
+	}
+	for _, n := range sizes {
+		body := make([]byte, n)
+		for i := range body {
+			body[i] = 'a' + byte(i%7)
+		}
+		full := append(refwire.EncVarInt(int32(n)), body...)
+		jsonBody := append(append([]byte{'"'}, body[:n-2]...), '"') // a JSON string of n bytes
+		fullJSON := append(refwire.EncVarInt(int32(n)), jsonBody...)
+		for _, d := range decs {
+			src := full
+			if d.name == "chat.JsonMessage" {
+				src = fullJSON
+			}
+			for _, present := range []int{len(src), len(src) - 1, 131072 + 3, 65536 + 3, len(src) / 2} {
+				if present > len(src) || present < 4 {
+					continue
+				}
+				in := src[:present]
+				wit := func() any {
+					return map[string]any{"decoder": d.name, "declared_bytes": n, "bytes_present": present - len(refwire.EncVarInt(int32(n)))}
+				}
+				c.Inflight(fmt.Sprintf("big-payload %s declared=%d present=%d", d.name, n, present))
+				var err error
+				if c.Guard("decode/big-payload/"+d.name, wit, func() { err = d.run(in) }) {
+					continue
+				}
+				c.Eval(vm.HashStr("big-payload", d.name, fmt.Sprint(n, present)), true)
+				switch {
+				case err == nil && present < len(src):
+					c.Violation("decode/big-payload-truncated-accepted/"+d.name, fmt.Sprintf("%s declared %d bytes, %d were present, and it decoded without error", d.name, n, present), wit())
+				case err == nil:
+					c.Cover("big-payload.accepted")
+				default:
+					c.Cover("big-payload.rejected")
+				}
+			}
+		}
+	}
+}
+
 // ---- self-consistent encodings whose sizes disagree with the receiver's state
 
 func longArray(n int, fill int64) *refnbt.Value {
@@ -944,6 +1015,9 @@ func run(c *vm.Ctx) {
 	// huge declared element counts (Ary with any prefix type, arrays inside chunks): an error, promptly
 	if c.Shard == 0 {
 		hugeArrays(c)
+	}
+	if c.Shard == 1%c.NShards {
+		bigPayloads(c)
 	}
 	sr := c.Rand("sizes")
 	for i := 0; i < c.Scale(400, 8000); i++ {
